@@ -28,6 +28,7 @@ import time
 
 sys.path.insert(0, os.path.join(os.path.dirname(os.path.abspath(__file__)), "..", "lib"))
 import vlib  # noqa
+import C20_route  # noqa  (per-object routing traces; their salting clause is C19's statement)
 
 PAM = {"lib/controller/localdb/login_pam.go": "harness/stubs/login_pam_stub.go"}
 SITES = {
@@ -176,8 +177,11 @@ def run(ctx):
     ctx.judge(sd, "TokenSeqTrace", "Judge_TokenSalt.cfg", seqevents, scenario_of=seq_by_id, timeout=1200,
               max_rejects=25 if ctx.thorough else 6)
     ctx.extra["provseq_traces"] = len(vlib.split_traces(seqevents))
+    # third part: every routed API method of federation.Conn (FedRoute.tla); judged here is only what a remote sees
+    # of the caller's token (FedRouteSaltTrace); the routing itself is judged, as drift, under checks/C20.py
+    nroute = C20_route.salt_part(ctx)
     traces = vlib.split_traces(events)
-    ctx.evaluations = len(traces) + ctx.extra["provseq_traces"]
+    ctx.evaluations = len(traces) + ctx.extra["provseq_traces"] + nroute
     # impl-model prediction vs. recorded outcome (drift only)
     form_of = lambda o: ("both" if o["salted"] and o["same"] else "salted" if o["salted"] else
                          "same" if o["same"] else "dropped")
